@@ -702,6 +702,7 @@ class Transformer:
                 fills.append((node, vals))
         if not fills:
             return "missing", f"the new {ix.classes[cls].name}'s {field} is never filled"
+        filtered = None
         for node, vals in fills:
             for v in vals:
                 ids, _ = fl.depends(v)
@@ -713,5 +714,25 @@ class Transformer:
                         if (rt & hier) or (isinstance(n.value, ast.Name) and n.value.id in inputs):
                             cov = self.member_fields(cls, n.attr)
                             if field in cov or "*" in cov:
+                                filt = self._filtering_member(cls, n.attr)
+                                if filt:
+                                    filtered = (n.attr, filt)
+                                    continue
                                 return "data", ""
+        if filtered:
+            return "filtered", f"filled through {ix.classes[cls].name}.{filtered[0]}(), which returns a filtered view ({filtered[1]}): entries of the input's {field} are lost"
         return "constant", f"the statements that fill {field} do not read the input's {field}"
+
+    def _filtering_member(self, cls: str, member: str) -> Optional[str]:
+        """If ``member`` is a method whose result is a filtered comprehension, describe the filter."""
+        fi = self.ix.find_method(cls, member)
+        if fi is None or fi.is_property:
+            return None
+        for st in iter_stmts(fi.body):
+            if isinstance(st, ast.Return) and st.value is not None:
+                for n in ast.walk(st.value):
+                    if isinstance(n, ast.comprehension) and n.ifs:
+                        return "if " + " and ".join(ast.unparse(c) for c in n.ifs)
+                    if isinstance(n, ast.Call) and isinstance(n.func, ast.Name) and n.func.id == "filter":
+                        return "filter(...)"
+        return None
